@@ -15,22 +15,27 @@
 (*       per-call flags, which a correct formatter resets in Begin)        *)
 (*   c   the configuration (chosen at Init, constant afterwards)           *)
 (*                                                                         *)
-(* One call is Run(f, c, k) = Finish(Body(Begin(f))) for an entry *kind* k *)
-(* of the catalogue below.  The output of a call is computed from the      *)
-(* buffers, so a token left behind by an earlier call would show up in it. *)
+(* One call is Run(f, c, k, w) = Finish(Body(Begin(f))) for an entry *kind* *)
+(* k of the catalogue below and a writer fault w (none | first byte | mid  *)
+(* record | inside the last line): the fault is an attribute of the CALL,  *)
+(* orthogonal to the kind - every accepted kind can meet a failing writer. *)
+(* The output of a call is computed from the buffers, so a token left      *)
+(* behind by an earlier call would show up in it.                          *)
 (*                                                                         *)
 (* The property is the absence of cross-call state:                        *)
-(*   Stateless   for every reachable f and every kind k the output and the *)
-(*               accept/reject/io decision equal those of the initial      *)
-(*               (freshly built) formatter                                 *)
-(*   NoResidue   after Begin the reachable state equals the initial state  *)
+(*   Stateless   for every reachable f, every kind k and every fault w the *)
+(*               output and the accept/reject/io decision equal those of   *)
+(*               the initial (freshly built) formatter                     *)
+(*   NoResidue   after Begin the reachable state - also the one left by a  *)
+(*               rejected or I/O-failed call - equals the initial state    *)
 (*               after Begin (modulo the dimensions buffer, which is       *)
 (*               cleared immediately before its only use); the counts      *)
 (*               buffer is clean whenever the formatter is idle            *)
 (*   PrefixKept  clearing (truncate + shrink) never loses a prefix         *)
 (* TLC checks them over all sequences of kinds (the reachable states) for  *)
 (* every configuration class.  CONSTANT Bug re-introduces one missing      *)
-(* reset at a time; the MC_hist_bug_*.cfg runs must FAIL (sensitivity).    *)
+(* reset at a time (dimsCached: a dimension-header cache whose flag is only *)
+(* updated when the write succeeds); those runs must FAIL (sensitivity).   *)
 (*                                                                         *)
 (* Consequently the prediction for position i of any sequence is           *)
 (* Out(F0, c, kind_i): EmfHistoryReplay prints sequences and the harness   *)
@@ -76,38 +81,38 @@ Cfg ==
 (*   edims  the entry carries EntryDimensions                               *)
 (*   why    the validation defect (none | unique | names | dimexist |      *)
 (*          nosplit | always)                                               *)
-(*   io     the writer fails: none | first (first byte) | mid (mid-record)  *)
 (*   huge   multi-megabyte members (buffers grow beyond the shrink limit)   *)
 (*   rate   none | ok | bad (format_with_sample_rate on a sampled config)   *)
 (***************************************************************************)
-K(str, glob, cnt, skip, sets, split, edims, why, io, huge, rate) ==
+K(str, glob, cnt, skip, sets, split, edims, why, huge, rate) ==
   [str |-> str, glob |-> glob, cnt |-> cnt, skip |-> skip, sets |-> sets, split |-> split,
-   edims |-> edims, why |-> why, io |-> io, huge |-> huge, rate |-> rate]
+   edims |-> edims, why |-> why, huge |-> huge, rate |-> rate]
 
 Kind ==
-  [ scalar      |-> K(<<"op">>, <<"lat", "size">>, FALSE, FALSE, <<>>, FALSE, FALSE, "none", "none", FALSE, "none"),
-    hist        |-> K(<<"op">>, <<"lat">>, TRUE, FALSE, <<>>, FALSE, FALSE, "none", "none", FALSE, "none"),
-    dupField    |-> K(<<"op">>, <<"lat", "lat">>, FALSE, FALSE, <<>>, FALSE, FALSE, "unique", "none", FALSE, "none"),
-    emptyName   |-> K(<<"op">>, <<"lat">>, FALSE, FALSE, <<>>, FALSE, FALSE, "names", "none", FALSE, "none"),
-    awsName     |-> K(<<"op">>, <<"lat">>, FALSE, FALSE, <<>>, FALSE, FALSE, "names", "none", FALSE, "none"),
-    missingDim  |-> K(<<>>, <<"lat">>, FALSE, FALSE, <<>>, FALSE, FALSE, "dimexist", "none", FALSE, "none"),
-    dimIsMetric |-> K(<<>>, <<"opm", "lat">>, FALSE, FALSE, <<>>, FALSE, FALSE, "dimexist", "none", FALSE, "none"),
-    dimsNoSplit |-> K(<<"op">>, <<"lat">>, FALSE, FALSE, <<"A">>, FALSE, FALSE, "nosplit", "none", FALSE, "none"),
-    twoTs       |-> K(<<"op">>, <<"lat">>, FALSE, FALSE, <<>>, FALSE, FALSE, "always", "none", FALSE, "none"),
-    errValue    |-> K(<<"op">>, <<"lat">>, TRUE, FALSE, <<>>, FALSE, FALSE, "always", "none", FALSE, "none"),
-    edimsTwice  |-> K(<<"op", "x">>, <<"lat">>, FALSE, FALSE, <<>>, FALSE, TRUE, "always", "none", FALSE, "none"),
-    split1      |-> K(<<"op">>, <<"lat">>, FALSE, FALSE, <<"A">>, TRUE, FALSE, "none", "none", FALSE, "none"),
-    split2      |-> K(<<"op">>, <<>>, TRUE, FALSE, <<"A", "B">>, TRUE, FALSE, "none", "none", FALSE, "none"),
-    entryDims   |-> K(<<"op", "x">>, <<"lat">>, FALSE, FALSE, <<>>, FALSE, TRUE, "none", "none", FALSE, "none"),
-    unroutable  |-> K(<<"msg">>, <<>>, FALSE, FALSE, <<>>, FALSE, FALSE, "none", "none", FALSE, "none"),
-    sampled     |-> K(<<"op">>, <<"lat">>, TRUE, FALSE, <<>>, FALSE, FALSE, "none", "none", FALSE, "ok"),
-    badRate     |-> K(<<"op">>, <<"lat">>, FALSE, FALSE, <<>>, FALSE, FALSE, "none", "none", FALSE, "bad"),
-    allNaN      |-> K(<<"op">>, <<"lat">>, TRUE, TRUE, <<>>, FALSE, FALSE, "none", "none", FALSE, "none"),
-    huge        |-> K(<<"op", "blob">>, <<"lat", "many">>, TRUE, FALSE, <<>>, FALSE, FALSE, "none", "none", TRUE, "none"),
-    ioMid       |-> K(<<"op">>, <<"lat", "size">>, FALSE, FALSE, <<>>, FALSE, FALSE, "none", "mid", FALSE, "none"),
-    ioFirst     |-> K(<<"op">>, <<"lat">>, TRUE, FALSE, <<"A">>, TRUE, FALSE, "none", "first", FALSE, "none") ]
+  [ scalar      |-> K(<<"op">>, <<"lat", "size">>, FALSE, FALSE, <<>>, FALSE, FALSE, "none", FALSE, "none"),
+    hist        |-> K(<<"op">>, <<"lat">>, TRUE, FALSE, <<>>, FALSE, FALSE, "none", FALSE, "none"),
+    dupField    |-> K(<<"op">>, <<"lat", "lat">>, FALSE, FALSE, <<>>, FALSE, FALSE, "unique", FALSE, "none"),
+    emptyName   |-> K(<<"op">>, <<"lat">>, FALSE, FALSE, <<>>, FALSE, FALSE, "names", FALSE, "none"),
+    awsName     |-> K(<<"op">>, <<"lat">>, FALSE, FALSE, <<>>, FALSE, FALSE, "names", FALSE, "none"),
+    missingDim  |-> K(<<>>, <<"lat">>, FALSE, FALSE, <<>>, FALSE, FALSE, "dimexist", FALSE, "none"),
+    dimIsMetric |-> K(<<>>, <<"opm", "lat">>, FALSE, FALSE, <<>>, FALSE, FALSE, "dimexist", FALSE, "none"),
+    dimsNoSplit |-> K(<<"op">>, <<"lat">>, FALSE, FALSE, <<"A">>, FALSE, FALSE, "nosplit", FALSE, "none"),
+    twoTs       |-> K(<<"op">>, <<"lat">>, FALSE, FALSE, <<>>, FALSE, FALSE, "always", FALSE, "none"),
+    errValue    |-> K(<<"op">>, <<"lat">>, TRUE, FALSE, <<>>, FALSE, FALSE, "always", FALSE, "none"),
+    edimsTwice  |-> K(<<"op", "x">>, <<"lat">>, FALSE, FALSE, <<>>, FALSE, TRUE, "always", FALSE, "none"),
+    split1      |-> K(<<"op">>, <<"lat">>, FALSE, FALSE, <<"A">>, TRUE, FALSE, "none", FALSE, "none"),
+    split2      |-> K(<<"op">>, <<>>, TRUE, FALSE, <<"A", "B">>, TRUE, FALSE, "none", FALSE, "none"),
+    entryDims   |-> K(<<"op", "x">>, <<"lat">>, FALSE, FALSE, <<>>, FALSE, TRUE, "none", FALSE, "none"),
+    unroutable  |-> K(<<"msg">>, <<>>, FALSE, FALSE, <<>>, FALSE, FALSE, "none", FALSE, "none"),
+    sampled     |-> K(<<"op">>, <<"lat">>, TRUE, FALSE, <<>>, FALSE, FALSE, "none", FALSE, "ok"),
+    badRate     |-> K(<<"op">>, <<"lat">>, FALSE, FALSE, <<>>, FALSE, FALSE, "none", FALSE, "bad"),
+    allNaN      |-> K(<<"op">>, <<"lat">>, TRUE, TRUE, <<>>, FALSE, FALSE, "none", FALSE, "none"),
+    huge        |-> K(<<"op", "blob">>, <<"lat", "many">>, TRUE, FALSE, <<>>, FALSE, FALSE, "none", TRUE, "none") ]
 
 KindNames == DOMAIN Kind
+\* the writer's behaviour during a call: never fails | fails on the first byte | in the middle
+\* of the first line | inside the last line (after all other lines were written)
+Faults == {"none", "first", "mid", "last"}
 
 VARIABLES f, c
 vars == <<f, c>>
@@ -118,7 +123,8 @@ Bufs == {"sf", "fl", "mt", "dc", "dm", "ct"}
 F0 == [sf |-> P, fl |-> P, mt |-> P, dc |-> P, dm |-> P, ct |-> P,
        dsm |-> <<>>,          \* dimension set |-> [fl, mt]   (a function with a finite domain)
        big |-> {},            \* buffers grown beyond the shrink limit
-       split |-> FALSE, unroutable |-> FALSE, edims |-> FALSE]   \* per-call writer state
+       split |-> FALSE, unroutable |-> FALSE, edims |-> FALSE,   \* per-call writer state
+       dmdef |-> FALSE]       \* only with Bug = "dimsCached": "dm already holds the default dimensions"
 
 \* PrefixedStringBuf::clear: truncate to the prefix, then shrink the capacity
 Clear(g, b) ==
@@ -181,8 +187,10 @@ Rejects(g, cf, k) ==
   \/ kd.why = "dimexist" /\ cf.val /\ cf.dim
   \/ (kd.sets # <<>> \/ (cf.gd /\ kd.glob # <<>>)) /\ ~cf.ign /\ ~g.split
 
-\* EntryWriter::finish
-Finish(g, cf, k) ==
+\* EntryWriter::finish, the writer failing as told by w.  Lines are written one by one: the
+\* per-dimension-set lines first, the line without per-metric dimensions last; the first
+\* failing write returns at once, whatever was prepared for later lines is never reached.
+Finish(g, cf, k, w) ==
   LET kd == Kind[k] IN
   IF Rejects(g, cf, k) THEN [st |-> g, out |-> [res |-> "reject", lines |-> {}]]
   ELSE
@@ -191,29 +199,38 @@ Finish(g, cf, k) ==
         g2 == [g1 EXCEPT !.dsm = [d \in DOMAIN g1.dsm |-> [g1.dsm[d] EXCEPT !.mt = @ \o <<"close">>]]]
         dlines == {<<g2.dsm[d].mt, g2.dsm[d].fl, g2.sf>> : d \in DOMAIN g2.dsm}
         needGlobal == dlines = {} \/ g2.fl # P
-        gm == IF Bug = "dimsNotCleared" THEN g2 ELSE Clear(g2, "dm")
+        \* does the write of a per-dimension-set line fail?
+        failsInSets == \/ w \in {"first", "mid"} /\ dlines # {}
+                       \/ w = "last" /\ ~needGlobal
+        usesDefault == ~g.edims
+        reuse == Bug = "dimsCached" /\ usesDefault /\ g.dmdef
+        gm == IF Bug = "dimsNotCleared" \/ reuse THEN g2 ELSE Clear(g2, "dm")
         g3 == IF needGlobal
-                THEN [gm EXCEPT !.dm = @ \o <<IF g.edims THEN "entrydims" ELSE "defaultdims">>,
+                THEN [gm EXCEPT !.dm = IF reuse THEN @ ELSE @ \o <<IF g.edims THEN "entrydims" ELSE "defaultdims">>,
                                 !.mt = @ \o <<"close">>]
                 ELSE g2
-        lines == dlines \cup (IF needGlobal THEN {<<g3.dm, g3.mt, g3.dc, g3.fl, g3.sf>>} ELSE {})
-    IN IF kd.io # "none"
-         THEN [st |-> g3, out |-> [res |-> "io", lines |-> {}]]
-         ELSE [st |-> g3, out |-> [res |-> "accept", lines |-> lines]]
+        \* the cache flag of Bug = "dimsCached" is updated after the write, i.e. on success only
+        g4 == IF Bug = "dimsCached" /\ needGlobal /\ w = "none" THEN [g3 EXCEPT !.dmdef = usesDefault] ELSE g3
+        gline == {<<g3.dm, g3.mt, g3.dc, g3.fl, g3.sf>>}
+        lines == dlines \cup (IF needGlobal THEN gline ELSE {})
+    IN IF w = "none" THEN [st |-> g4, out |-> [res |-> "accept", lines |-> lines]]
+       ELSE IF failsInSets
+              THEN [st |-> g2, out |-> [res |-> "io", lines |-> IF w = "last" THEN dlines \ {CHOOSE x \in dlines : TRUE} ELSE {}]]
+              ELSE [st |-> g4, out |-> [res |-> "io", lines |-> IF w = "last" THEN dlines ELSE {}]]
 
 \* one call of format / format_with_sample_rate
-Run(g, cf, k) ==
+Run(g, cf, k, w) ==
   IF cf.samp /\ Kind[k].rate = "bad"
     THEN [st |-> g, out |-> [res |-> "reject", lines |-> {}]]   \* rejected before anything is touched
-    ELSE Finish(Body(Begin(g), cf, k), cf, k)
+    ELSE Finish(Body(Begin(g), cf, k), cf, k, w)
 
 Init == f = F0 /\ c \in {Cfg[n] : n \in ConfigNames}
-Format(k) == f' = Run(f, c, k).st /\ UNCHANGED c
-Next == \E k \in KindNames : Format(k)
+Format(k, w) == f' = Run(f, c, k, w).st /\ UNCHANGED c
+Next == \E k \in KindNames, w \in Faults : Format(k, w)
 Spec == Init /\ [][Next]_vars
 
 \* ---- the property ----------------------------------------------------------
-Stateless == \A k \in KindNames : Run(f, c, k).out = Run(F0, c, k).out
+Stateless == \A k \in KindNames, w \in Faults : Run(f, c, k, w).out = Run(F0, c, k, w).out
 
 Scrub(g) == [g EXCEPT !.dm = P]
 NoResidue == /\ Scrub(Begin(f)) = Scrub(Begin(F0))
@@ -223,6 +240,6 @@ PrefixKept == /\ \A b \in Bufs : Len(f[b]) >= 1 /\ f[b][1] = "P"
 HInv == Stateless /\ NoResidue /\ PrefixKept
 
 \* predicted decision of a fresh formatter (printed with the replayed sequences)
-Pred(cn, k) == Run(F0, Cfg[cn], k).out.res
-PredLines(cn, k) == Cardinality(Run(F0, Cfg[cn], k).out.lines)
+Pred(cn, k, w) == Run(F0, Cfg[cn], k, w).out.res
+PredLines(cn, k, w) == Cardinality(Run(F0, Cfg[cn], k, w).out.lines)
 =============================================================================
